@@ -1388,7 +1388,7 @@ func deref(t types.Type) types.Type {
 
 // namedOf returns the named type behind t (through one pointer).
 func namedOf(t types.Type) *types.Named {
-	t = deref(t)
+	t = types.Unalias(deref(types.Unalias(t)))
 	n, _ := t.(*types.Named)
 	return n
 }
